@@ -51,7 +51,7 @@ pub fn start(id: &'static str) -> Watch {
             let t = table().lock().unwrap();
             for (_, (since, bytes)) in t.iter() {
                 if since.elapsed() > lim {
-                    let dir = std::path::Path::new(crate::engine::VERIF_DIR).join("replays").join(id);
+                    let dir = crate::engine::verif_dir().join("replays").join(id);
                     let _ = std::fs::create_dir_all(&dir);
                     let p = dir.join(format!("watchdog-{:016x}.osu", crate::engine::hash64(bytes)));
                     let _ = std::fs::write(&p, bytes);
